@@ -63,7 +63,10 @@ REQUEST_LINES = [b"GET /path?x=1 HTTP/1.1", b"POST / HTTP/1.1", b"get / HTTP/1.1
                  b"GET http://localhost:9000/ HTTP/1.1", b"GET * HTTP/1.1", b"", b"GET / HTTP/1.1 extra",
                  b"GET /?redirect=http://x.y/&after=3 HTTP/1.1", b"GET /?redirect=x&after=abc HTTP/1.1",
                  b"GET /?redirect=http://[x/ HTTP/1.1", b"GET /%zz?\xff HTTP/1.1",
-                 b"GET /?redirect=http://x.y/&after=1_0 HTTP/1.1"]
+                 b"GET /?redirect=http://x.y/&after=1_0 HTTP/1.1",
+                 # HTTP-version = "HTTP/" DIGIT "." DIGIT, and at least 1.1 for the upgrade
+                 b"GET / HTTP/1", b"GET / HTTP/1.", b"GET / HTTP/.1", b"GET / HTTP/", b"GET / HTTP/.",
+                 b"GET / HTTP/11", b"GET / HTTP/1.10", b"GET / http/1.1", b"GET / HTTP/0.9"]
 
 SERVER_CFGS = [
     {"name": "default"},
